@@ -88,13 +88,17 @@ def main():
     run = vlib.Run('C03')
     run.coq_gate()
     cp.glue_cases(run)
+    cp.edge_cases(run, run.n(150, 4000))
     pipeline_cases(run)
-    run.rule = ('(1) real MQ.send/MQ.recv/Filter.process_frames with stub sender/receiver vs the MQGlue model; (2) pipelines of real filters in '
+    run.rule = ('(1) real MQ.send/MQ.recv/Filter.process_frames with stub sender/receiver vs the MQGlue model; (1b) the real ZMQReceiver on '
+                'well-formed-publisher schedules machine-checked to satisfy the hypotheses of C03_edge_lossless, frames handed out compared with '
+                'the model and with the published sequence; (2) pipelines of real filters in '
                 'pipeline mode (chain of 1-3 relays, tee, tee-rejoin with remapped branches, join of two sources; processing times 0-3 s, '
                 'message delays 0-80 ms, None-skipping relays on non-rejoined paths, deferred sources) compared with the functional reference; '
                 'non-trivial = every run; distinct by hash')
-    run.partial = ['C03_edge_lossless / C03_chain (every consumer sees exactly the published sequence from the very first frame; chains compose) are NOT proved over '
-                   'the network model: they are explored in pipeline mode against the functional reference on the schedules of this run',
+    run.partial = ['the lossless edge is proved for the consumer side (C03_edge_lossless, C03_edge_nothing_dropped: any interleaving, FIFO loss-free channel, '
+                   'well-formed publisher); that the publisher waits for the consumer (so the channel never overflows) is C04/C06; the composition of whole chains '
+                   '(C03_chain) is NOT proved over the network model: it is explored in pipeline mode against the functional reference on the schedules of this run',
                    'runs in which the simulated PUB high-water mark dropped a message are outside the property (counted, not judged)',
                    'real ZeroMQ buffering/TCP behaviour and OS scheduling are outside the model']
     run.assumptions = ['simnet network rules: per-pair FIFO, prefix filtering, no forging/duplication, loss only at the HWM']
